@@ -115,7 +115,16 @@ def scan(repo: Repo) -> RuleRun:
     r.check(got == {1, 2, 3, 5}, fis, "find_in_sphere passes position and radius through", f"find_in_sphere(5, 3) returns {got}", fis.node, key="find_in_sphere")
 
     fop = repo.func("modify.find.geometric.GeometricFinder.find_on_plane")
-    res = _run(Evaluator(repo=repo, module=fop.module, call_hook=dist_hook()), fop, [this, 5, Sym("normal")])
+    def fop_hook(ev, call: ast.Call, name):
+        # positions of the toy model are numbers on a line: tuple(position) is the 1-tuple of it
+        if name == "tuple" and len(call.args) == 1:
+            v = ev.eval(call.args[0])
+            if isinstance(v, (int, float)) and not isinstance(v, bool):
+                return (v,)
+        return dist_hook()(ev, call, name)
+
+    # (vertices 2 and 3 are at the same spot - the two copies of a vertex on a merged patch pair: both are on the plane)
+    res = _run(Evaluator(repo=repo, module=fop.module, call_hook=fop_hook), fop, [this, 5, Sym("normal")])
     got = {v.get("index") for v in res} if isinstance(res, (set, list)) else res
     r.check(got == {2, 3}, fop, "find_on_plane returns all on-plane vertices", f"find_on_plane returns {got}; vertices 2 and 3 lie on the plane", fop.node, key="find_on_plane")
     ptp = repo.func("util.functions.point_to_plane_distance")
@@ -149,6 +158,14 @@ def scan(repo: Repo) -> RuleRun:
     shape = Obj("shape")
     shape.set("sketch_1", sketch([[0, 1, 2, 3]], [[1, 6, 7, 2], [3, 2, 7, 6]]))
     shape.set("sketch_2", sketch([[10, 11, 12, 13]], [[11, 16, 17, 12]]))
+    # the lofts of the shape as they are after Shape.mirror(): every loft inverted (its bottom face is the END sketch's face), the
+    # sketches untouched - the finder answers for the sketch the caller names, whatever the lofts look like
+    lofts = []
+    for k, (f1, f2) in enumerate(zip(shape.get("sketch_1").get("core") + shape.get("sketch_1").get("shell"), shape.get("sketch_2").get("core") + shape.get("sketch_2").get("shell"))):
+        lofts.append(Obj(f"loft{k}", bottom_face=f2, top_face=f1))
+    shape.set("operations", lofts)
+    shape.set("core", lofts[:1])
+    shape.set("shell", lofts[1:])
     this = Obj("rsf", cls=rsf)
     this.set("mesh", mesh)
     this.set("shape", shape)
@@ -604,4 +621,61 @@ def accept_by_distance(repo: Repo) -> RuleRun:
 accept_by_distance.rule_id = "C18.ACCEPT-BY-DISTANCE"
 
 
-RULES = [scan, corner_table, frame_signs, triangle_partition, affine_kinds, stale_alias, no_stale_lazy_cache, orthogonal_frame, side_priority, live_queries, flag_truthiness, owns_viewpoint, scale_free_tests, view_frame_exact, accept_by_distance]
+
+def view_from_centre(repo: Repo) -> RuleRun:
+    """'the result is independent of the numbering the block had before': the directions 'towards the observer' and 'up' are taken at
+    the centre of the whole block (all eight corners), which no renumbering moves - not at the centre of the face that happens to be
+    the bottom one at the moment. The argument handed to _get_normals in reorient() is evaluated on a symbolic operation whose
+    centre, face centres and corner list are distinct atoms."""
+    from ..peval import NO_MATCH, Evaluator, NotEvaluable, Obj, Raised, Sym
+
+    r = RuleRun(PROP, "C18.VIEW-FROM-CENTRE", floor=1, what="ViewpointReorienter.reorient measures the viewing directions from the centre of all eight corners of the operation")
+    fn = repo.func("modify.reorient.viewpoint.ViewpointReorienter.reorient")
+    calls = [c for c in ast.walk(fn.node) if isinstance(c, ast.Call) and isinstance(c.func, ast.Attribute) and c.func.attr == "_get_normals" and c.args]
+    r.require(len(calls) >= 1, "reorient() no longer calls _get_normals(<centre>)")
+    op = Obj("operation")
+    corners = [Sym(f"corner{k}") for k in range(8)]
+    op.set("center", Sym("centre-of-8"))
+    op.set("point_array", list(corners))
+    op.set("points", list(corners))
+    for nm, lo in (("bottom_face", 0), ("top_face", 4)):
+        face = Obj(nm)
+        face.set("center", Sym(f"centre-of-{nm}"))
+        face.set("point_array", corners[lo : lo + 4])
+        op.set(nm, face)
+
+    def hook(ev, call: ast.Call, name):
+        nm = (name or "").split(".")[-1]
+        if nm in ("average", "mean") and call.args:
+            v = ev.eval(call.args[0])
+            if isinstance(v, list) and len(v) == 8 and len({repr(x) for x in v}) == 8:
+                return Sym("centre-of-8")
+            if isinstance(v, list):
+                return Sym(f"centre-of-{len(v)}-points")
+        if nm in ("array", "asarray") and call.args:
+            return ev.eval(call.args[0])
+        return NO_MATCH
+
+    for k, c in enumerate(calls):
+        ev = Evaluator(repo=repo, module=fn.module, call_hook=hook)
+        ev.env[fn.params[1]] = op
+        try:
+            got = ev.eval(c.args[0])
+        except (Raised, NotEvaluable) as err:
+            raise AnalysisError(f"reorient(): the argument of _get_normals ('{ast.unparse(c.args[0])[:50]}') is not evaluable on the symbolic operation: {err}") from err
+        r.check(
+            repr(got) == "centre-of-8",
+            fn,
+            f"_get_normals({ast.unparse(c.args[0])[:40]}) = centre of the eight corners",
+            f"ViewpointReorienter.reorient takes the viewing directions at '{ast.unparse(c.args[0])[:60]}' = {got!r}, not at the centre of the whole block: which face is 'bottom' depends on the numbering the block had "
+            "before, so a close, oblique viewpoint re-orients the same block differently (or raises DegenerateGeometryError) for some of its 48 previous numberings",
+            c,
+            key=f"centre#{k}",
+        )
+    return r
+
+
+view_from_centre.rule_id = "C18.VIEW-FROM-CENTRE"
+
+
+RULES = [scan, corner_table, frame_signs, triangle_partition, affine_kinds, stale_alias, no_stale_lazy_cache, orthogonal_frame, side_priority, live_queries, flag_truthiness, owns_viewpoint, scale_free_tests, view_frame_exact, accept_by_distance, view_from_centre]
